@@ -222,4 +222,85 @@ def ended (s : State) (sid : Nat) : Prop :=
 instance (s : State) (sid : Nat) : Decidable (ended s sid) := by
   unfold ended; exact inferInstance
 
+
+/-! ### Trace acceptance (run by the driver on observed histories)
+
+The harness issues operations one after the other; each takes effect atomically at some point
+between its `call` and its `ret` record. Close notifications run on their own goroutines: a
+pending one may take effect at any point. The acceptance automaton therefore tracks a SET of
+configurations and closes it under "deliver any pending notification" and "apply the pending
+operation". The functions below are everything in the driver that produces a new state; that
+each yields only states reachable by `step? fixed` is proved in
+`Lemmas/StubSessionTrace.lean`. -/
+
+/-- What the harness observed of one operation. -/
+inductive OpObs
+  /-- `Start`: behaviour of the runtime end, result, whether the stub dialled, the number of
+      the session (ttrpc client) and of the connection created during the call (0 = none) -/
+  | start (o : Script) (r : StartRes) (dialed : Bool) (sid conn : Nat)
+  | stop
+  | wait (returned : Bool)
+  /-- the runtime end closed connection `conn` -/
+  | lose (conn : Nat)
+  /-- await / pause: no call into the stub -/
+  | nop
+  /-- a request from the runtime end (or `UpdateContainers` from the plugin) answered or not -/
+  | request (ok : Bool)
+  /-- an observation no step explains (a blocked Stop/Wait, an unknown error kind) -/
+  | impossible
+deriving DecidableEq, Repr
+
+/-- The runtime end closed connection `conn`: a connection loss if that is the live
+    session's connection, otherwise nothing the stub can notice. -/
+def loseConn (conn : Nat) (s : State) : State :=
+  if s.dials = conn then
+    match step? fixed s .connLost with
+    | some s' => s'
+    | none => s
+  else s
+
+/-- all states an observed operation can lead to from `s` (empty = impossible here) -/
+def applyObs (p : OpObs) (s : State) : List State :=
+  match p with
+  | .start o r dialed sid conn =>
+    match step? fixed s (.start o r) with
+    | none => []
+    | some s' =>
+      let mDial := !s.started && s.conn.isNone
+      let mSid := if s'.cur = s.cur + 1 then s'.cur else 0
+      let mConn := if s'.dials = s.dials + 1 then s'.dials else 0
+      if mDial = dialed ∧ mSid = sid ∧ mConn = conn then [s'] else []
+  | .stop => (step? fixed s .stop).toList
+  | .wait b => (step? fixed s (.wait b)).toList
+  | .lose conn => [loseConn conn s]
+  | .nop => [s]
+  | .request ok => (step? fixed s (.dispatch ok)).toList
+  | .impossible => []
+
+/-- a configuration of the automaton: a state, and whether the operation currently between
+    `call` and `ret` has already taken effect -/
+structure Cfg where
+  s : State
+  applied : Bool
+deriving DecidableEq
+
+def dedup (l : List Cfg) : List Cfg :=
+  l.foldl (fun acc c => if acc.contains c then acc else acc ++ [c]) []
+
+/-- silent moves of one configuration: deliver one pending close notification, or let the
+    pending operation take effect -/
+def silent (p : Option OpObs) (c : Cfg) : List Cfg :=
+  let ns := c.s.inflight.filterMap fun sid =>
+    (step? fixed c.s (.closeNotify sid)).map fun s' => { c with s := s' }
+  let os := match p with
+    | some pd => if c.applied then [] else (applyObs pd c.s).map fun s' => { s := s', applied := true }
+    | none => []
+  ns ++ os
+
+def closure (p : Option OpObs) (cs : List Cfg) : Nat → List Cfg
+  | 0 => cs
+  | fuel + 1 =>
+    let next := dedup (cs ++ cs.flatMap (silent p))
+    if next.length = cs.length then cs else closure p next fuel
+
 end Nri.StubSession
